@@ -39,11 +39,16 @@ Proof.
     + cbn [exec]. rewrite E. eapply IH. exact H.
 Qed.
 
+Lemma exec_guard_waits n s : exec (repeat GuardWait n) s = SOk s.
+Proof. induction n as [|n IH]; cbn; [reflexivity|exact IH]. Qed.
+
 Lemma exec_cut_ok site k l s s' :
   exec l s = SOk s' -> exists s'', exec (cut_prog site k l) s = SOk s''.
 Proof.
-  intros H. unfold cut_prog, unwind_actions. rewrite !app_nil_r.
-  destruct site; [eapply exec_cut_call|eapply exec_cut_gen]; exact H.
+  intros H. unfold cut_prog, unwind_actions. rewrite exec_app.
+  destruct site.
+  - destruct (exec_cut_call k l s s' H) as (s2 & E). rewrite E. exists s2. apply exec_guard_waits.
+  - destruct (exec_cut_gen k l s s' H) as (s2 & E). rewrite E. exists s2. apply exec_guard_waits.
 Qed.
 
 (** * The memory discipline implies: no double drop, no use after drop *)
@@ -121,7 +126,7 @@ Lemma step_nd v a s s' nd :
   exists nd', ndl_exec (obs1 v a) nd = Some nd' /\ rel s' nd'.
 Proof.
   intros Hex Hrel. unfold exec_step in Hex.
-  destruct a as [i|k i|i| | |i r c|i|i|i|i| | | |i c|i c|i r c|i]; cbn [act_index] in Hex;
+  destruct a as [i|k i|i| | |i r c|i|i|i|i| | | |i c|i c|i r c|i| ]; cbn [act_index] in Hex;
     try (inversion Hex; subst; cbn; destruct v as [? ? ? []]; cbn; eexists; (split; [reflexivity|exact Hrel])).
   - (* Gen *)
     unfold cell_step in Hex. destruct (fst (s i)) eqn:Hf; try discriminate. inversion Hex; subst.
@@ -254,4 +259,118 @@ Proof.
   - rewrite Nat.eqb_refl. reflexivity.
   - destruct a; cbn; try (rewrite IH; reflexivity).
     destruct (Nat.eqb_spec i k); [contradiction|]. rewrite IH. reflexivity.
+Qed.
+
+(** * How many waits the guard performs *)
+
+Definition no_sync (a : action) : Prop :=
+  match a with SyncStart | SyncEnd => False | _ => True end.
+
+Lemma remaining_app l1 l2 rem :
+  remaining_waits (l1 ++ l2) rem = remaining_waits l2 (remaining_waits l1 rem).
+Proof.
+  revert rem. induction l1 as [|a l1 IH]; intros rem; cbn; [reflexivity|].
+  destruct a; apply IH.
+Qed.
+
+Lemma remaining_no_sync l rem : Forall no_sync l -> remaining_waits l rem = rem.
+Proof.
+  induction 1 as [|a l Ha Hl IH]; cbn; [reflexivity|]. destruct a; cbn in Ha; try contradiction; exact IH.
+Qed.
+
+Lemma cut_at_gen_prefix k l1 l2 :
+  Forall (fun a => match a with Gen i => i <> k | _ => True end) l1 ->
+  cut_at_gen k (l1 ++ Gen k :: l2) = l1 ++ [GenPanic k].
+Proof.
+  induction 1 as [|a l1 Ha Hl IH]; cbn.
+  - rewrite Nat.eqb_refl. reflexivity.
+  - destruct a; cbn; try (rewrite IH; reflexivity).
+    destruct (Nat.eqb_spec i k); [contradiction|]. rewrite IH. reflexivity.
+Qed.
+
+Lemma Forall_flat_map_range {B} (P : B -> Prop) (blk : nat -> list B) a k :
+  (forall i, a <= i < a + k -> Forall P (blk i)) -> Forall P (flat_map blk (seq a k)).
+Proof.
+  intros H. apply Forall_forall. intros x Hx. apply in_flat_map in Hx.
+  destruct Hx as (i & Hi & Hx). apply in_seq in Hi. specialize (H i Hi).
+  rewrite Forall_forall in H. apply H. exact Hx.
+Qed.
+
+Lemma seq_split3 n k : k < n -> seq 0 n = seq 0 k ++ k :: seq (S k) (n - S k).
+Proof.
+  intros H. replace n with (k + S (n - S k)) at 1 by lia. rewrite seq_app. reflexivity.
+Qed.
+
+(** The benchmarked function panics at call [k < n]: the thread has waited
+    twice (start synchronisation), so the guard waits exactly once more. *)
+Theorem unwind_after_call_panic e sh n cs u k :
+  k < n ->
+  exists ran, cut_prog PanicCall k (sample_prog e sh n cs u) = ran ++ [GuardWait]
+              /\ Forall (fun a => a <> GuardWait) ran.
+Proof.
+  intros Hk. unfold sample_prog, sample_core, call_phase.
+  set (s := eff_shape e sh). set (p := path_of s). set (c := eff_counters e cs). set (r := by_ref e).
+  rewrite (seq_split3 n k Hk). rewrite flat_map_app. cbn [flat_map].
+  unfold call_block at 2. cbn [app]. unfold gen_phase.
+  set (l1 := flat_map (gen_block p c) (seq 0 n) ++ [SyncStart; TsStart] ++ flat_map (call_block p r u) (seq 0 k)).
+  match goal with
+  | |- context [cut_prog PanicCall k ?l] =>
+      assert (Hl : exists l2, l = l1 ++ Call k r (in_cell p) :: l2)
+  end.
+  { unfold l1. eexists. rewrite <- !app_assoc. cbn [app]. reflexivity. }
+  destruct Hl as (l2 & ->).
+  assert (Hfree : Forall (fun a => match a with Call i _ _ => i <> k | _ => True end) l1).
+  { unfold l1. apply Forall_app. split; [|apply Forall_app; split].
+    - apply Forall_flat_map_range. intros i _. destruct p, c as [[] [] [] []]; repeat constructor.
+    - repeat constructor.
+    - apply Forall_flat_map_range. intros i Hi. destruct p, r, u; repeat constructor; cbn; lia. }
+  unfold cut_prog. rewrite (cut_at_call_prefix k l1 r (in_cell p) l2 Hfree).
+  assert (Hrem : remaining_waits (l1 ++ [CallPanic k r (in_cell p)]) wait_count = 1).
+  { rewrite remaining_app. unfold l1. rewrite !remaining_app.
+    rewrite (remaining_no_sync (flat_map (gen_block p c) (seq 0 n))).
+    2:{ apply Forall_flat_map_range. intros i _. destruct p, c as [[] [] [] []]; repeat constructor. }
+    cbn [remaining_waits wait_count Nat.sub].
+    rewrite (remaining_no_sync (flat_map (call_block p r u) (seq 0 k))).
+    2:{ apply Forall_flat_map_range. intros i _. destruct p, r, u; repeat constructor. }
+    reflexivity. }
+  unfold unwind_actions. rewrite Hrem. cbn [repeat].
+  exists (l1 ++ [CallPanic k r (in_cell p)]). split; [reflexivity|].
+  apply Forall_app. split; [|repeat constructor; discriminate].
+  unfold l1. apply Forall_app. split; [|apply Forall_app; split].
+  - apply Forall_flat_map_range. intros i _. destruct p, c as [[] [] [] []]; repeat constructor; discriminate.
+  - repeat constructor; discriminate.
+  - apply Forall_flat_map_range. intros i _. destruct p, r, u; repeat constructor; discriminate.
+Qed.
+
+(** The generator panics at index [k < n]: the thread has not waited yet, the
+    guard performs all three waits. *)
+Theorem unwind_after_gen_panic e sh n cs u k :
+  k < n ->
+  exists ran, cut_prog PanicGen k (sample_prog e sh n cs u) = ran ++ [GuardWait; GuardWait; GuardWait]
+              /\ Forall (fun a => a <> GuardWait) ran.
+Proof.
+  intros Hk. unfold sample_prog, sample_core, gen_phase.
+  set (s := eff_shape e sh). set (p := path_of s). set (c := eff_counters e cs). set (r := by_ref e).
+  rewrite (seq_split3 n k Hk). rewrite flat_map_app. cbn [flat_map].
+  unfold gen_block at 2. cbn [app].
+  set (l1 := flat_map (gen_block p c) (seq 0 k)).
+  match goal with
+  | |- context [cut_prog PanicGen k ?l] =>
+      assert (Hl : exists l2, l = l1 ++ Gen k :: l2)
+  end.
+  { unfold l1. eexists. rewrite <- !app_assoc. cbn [app]. reflexivity. }
+  destruct Hl as (l2 & ->).
+  assert (Hfree : Forall (fun a => match a with Gen i => i <> k | _ => True end) l1).
+  { unfold l1. apply Forall_flat_map_range. intros i Hi.
+    destruct p, c as [[] [] [] []]; repeat constructor; cbn; lia. }
+  unfold cut_prog. rewrite (cut_at_gen_prefix k l1 l2 Hfree).
+  assert (Hrem : remaining_waits (l1 ++ [GenPanic k]) wait_count = 3).
+  { rewrite remaining_app. unfold l1.
+    rewrite (remaining_no_sync (flat_map (gen_block p c) (seq 0 k))); [reflexivity|].
+    apply Forall_flat_map_range. intros i _. destruct p, c as [[] [] [] []]; repeat constructor. }
+  unfold unwind_actions. rewrite Hrem. cbn [repeat].
+  exists (l1 ++ [GenPanic k]). split; [reflexivity|].
+  apply Forall_app. split; [|repeat constructor; discriminate].
+  unfold l1. apply Forall_flat_map_range. intros i _.
+  destruct p, c as [[] [] [] []]; repeat constructor; discriminate.
 Qed.
